@@ -826,3 +826,139 @@ def maxwell_integrands(ctx):
             raise TieBroken("%s: assembly_function_potential[%s] is %s" % (NUMBA_SRC, k, pot.get(k)))
     ctx.write_gen("MaxwellIntegrands.v", "\n".join(out) + "\n")
     return res
+
+
+# ---------------------------------------------------------------------------------------------------------------
+# hypersingular assemblers: coefficient structure  G * (curl_product + M * phi_test * phi_trial * (n_test . n_trial))
+
+HYP_FUNCS = ["laplace_hypersingular_regular", "helmholtz_hypersingular_regular", "modified_helmholtz_hypersingular_regular",
+             "laplace_hypersingular_singular", "helmholtz_hypersingular_singular", "modified_helmholtz_hypersingular_singular"]
+
+
+def _factors(e):
+    if isinstance(e, ast.BinOp) and isinstance(e.op, ast.Mult):
+        return _factors(e.left) + _factors(e.right)
+    return [e]
+
+
+def _base_name(e):
+    while isinstance(e, ast.Subscript):
+        e = e.value
+    return e.id if isinstance(e, ast.Name) else None
+
+
+def _hyp_one(rel, fn):
+    """-> (re, im) IR of the mass coefficient M(p0, p1) of one hypersingular assembler"""
+    where = "%s:%d (%s)" % (rel, fn.lineno, fn.name)
+    params = [a.arg for a in fn.args.args]
+    if "kernel_evaluator" not in params or "kernel_parameters" not in params:
+        raise TieBroken(where + ": signature")
+    assigns = {}
+    for n in ast.walk(fn):
+        if isinstance(n, ast.Assign) and len(n.targets) == 1 and isinstance(n.targets[0], ast.Name):
+            assigns.setdefault(n.targets[0].id, []).append(n)
+
+    def cval(e, depth=0):
+        """complex value of a coefficient expression over kernel_parameters"""
+        if isinstance(e, ast.Constant):
+            if isinstance(e.value, complex) and e.value == 1j:
+                return (num(0), num(1))
+            if isinstance(e.value, (int, float)) and not isinstance(e.value, bool):
+                return _real(num(e.value))
+        if isinstance(e, ast.Subscript) and ast.unparse(e) in ("kernel_parameters[0]", "kernel_parameters[1]"):
+            return _real(var("p%s" % ast.unparse(e.slice)))
+        if isinstance(e, ast.Name) and depth < 3:
+            defs = assigns.get(e.id, [])
+            if len(defs) != 1:
+                raise TieBroken(where + ": coefficient name %s has %d definitions" % (e.id, len(defs)))
+            return cval(defs[0].value, depth + 1)
+        if isinstance(e, ast.UnaryOp) and isinstance(e.op, ast.USub):
+            v = cval(e.operand, depth)
+            return (["neg", v[0]], ["neg", v[1]])
+        if isinstance(e, ast.BinOp):
+            op = {ast.Add: _cadd, ast.Sub: _csub, ast.Mult: _cmul}.get(type(e.op))
+            if op is not None:
+                return op(cval(e.left, depth), cval(e.right, depth))
+            if isinstance(e.op, ast.Pow) and isinstance(e.right, ast.Constant) and e.right.value == 2:
+                v = cval(e.left, depth)
+                return _cmul(v, v)
+        raise TieBroken(where + ": coefficient expression %s not recognised" % ast.unparse(e)[:60])
+
+    accum = [n for n in ast.walk(fn) if isinstance(n, ast.AugAssign) and isinstance(n.op, ast.Add) and
+             _base_name(n.target) in ("local_result", "result") and
+             any(_base_name(f) in ("tmp", "kernel_values") for f in _factors(n.value))]
+    if len(accum) != 1:
+        raise TieBroken(where + ": expected exactly one integrand accumulation, found %d" % len(accum))
+    facs = _factors(accum[0].value)
+    brackets = [f for f in facs if isinstance(f, ast.BinOp) and isinstance(f.op, (ast.Add, ast.Sub))]
+    weights_ok = {"tmp", "kernel_values", "quad_weights"}
+    if "tmp" in [_base_name(f) for f in facs]:
+        tdef = [n for n in ast.walk(fn) if isinstance(n, ast.Assign) and _base_name(n.targets[0]) == "tmp" and
+                isinstance(n.targets[0], ast.Subscript)]
+        if len(tdef) != 1 or "kernel_values" not in [_base_name(f) for f in _factors(tdef[0].value)
+                                                      for f in ([f] if not isinstance(f, ast.BinOp) else _factors(f))]:
+            raise TieBroken(where + ": tmp[...] is not kernel_values[...] times weights")
+    src = ast.unparse(fn)
+    if not brackets:
+        # Laplace: kernel value times curl product only (the curl factor may be applied by a later '*=')
+        others = [f for f in facs if _base_name(f) not in weights_ok]
+        if any("curl" not in (_base_name(f) or "") for f in others) or "curl_product" not in src or "normal_prod" in src:
+            raise TieBroken(where + ": integrand without a bracket is not kernel * curl_product")
+        return (num(0), num(0))
+    if len(brackets) != 1 or any(_base_name(f) not in weights_ok for f in facs if f is not brackets[0]):
+        raise TieBroken(where + ": integrand factors not recognised")
+    br = brackets[0]
+    if "curl" not in (_base_name(br.left) or ""):
+        raise TieBroken(where + ": bracket does not start with the curl product")
+    mfacs = _factors(br.right)
+    names = [_base_name(f) or "" for f in mfacs]
+    n_test = sum(1 for n in names if n.endswith("test_fun_values"))
+    n_trial = sum(1 for n in names if n.endswith("trial_fun_values"))
+    n_norm = sum(1 for n in names if n in ("normal_prod", "normal_product"))
+    if (n_test, n_trial, n_norm) != (1, 1, 1):
+        raise TieBroken(where + ": mass term is not coefficient * test values * trial values * normal product")
+    coef = [f for f, n in zip(mfacs, names) if not (n.endswith("test_fun_values") or n.endswith("trial_fun_values") or
+                                                      n in ("normal_prod", "normal_product"))]
+    if not coef:
+        c = _real(num(1))
+    else:
+        c = cval(coef[0])
+        for f in coef[1:]:
+            c = _cmul(c, cval(f))
+    if isinstance(br.op, ast.Sub):
+        c = (["neg", c[0]], ["neg", c[1]])
+    return c
+
+
+def hypersingular_coefficients(ctx):
+    """Emit gen/Hypersingular.v: the complex factor M(k) of the normal-product (mass) term of the six hypersingular
+    assemblers, integrand = G(x,y) * (curl_test . curl_trial + M * phi_test * phi_trial * n_test . n_trial), and the
+    assembly_type -> function tables of select_numba_kernels."""
+    path, tree, funcs = _parse(ctx, NUMBA_SRC)
+    tabs, _modes = selection_tables(ctx)
+    out = ["(* generated by translators/py_kernels.py (hypersingular_coefficients) from %s -- do not edit *)" % NUMBA_SRC,
+           "From Coq Require Import Reals String List.", "Import ListNotations.", "Open Scope R_scope.", ""]
+    res = {}
+    for name in HYP_FUNCS:
+        if name not in funcs:
+            raise TieBroken("%s: %s not found" % (NUMBA_SRC, name))
+        c = _hyp_one(NUMBA_SRC, funcs[name])
+        for e in c:
+            extra = kexpr.free_vars(e) - {"p0", "p1"}
+            if extra:
+                raise TieBroken("%s: %s coefficient has free symbols %s" % (NUMBA_SRC, name, sorted(extra)))
+        res[name] = c
+        out.append("(* %s:%d *)" % (NUMBA_SRC, funcs[name].lineno))
+        out.append("Definition hyp_mass_%s (p0 p1 : R) : R * R :=\n  (%s,\n   %s)." % (name, kexpr.coq(c[0]), kexpr.coq(c[1])))
+    out.append("")
+    out.append("Definition hyp_mass (name : string) : option (R -> R -> R * R) :=")
+    for name in HYP_FUNCS:
+        out.append('  if String.eqb name "%s"%%string then Some hyp_mass_%s else' % (name, name))
+    out.append("  None.")
+    for tab in ("assembly_functions_regular", "assembly_functions_singular"):
+        if tab not in tabs:
+            raise TieBroken("%s: table %s not found" % (NUMBA_SRC, tab))
+        out.append("Definition numba_%s : list (string * string) :=\n  [%s]." % (
+            tab, ";\n   ".join('("%s"%%string, "%s"%%string)' % kv for kv in tabs[tab].items())))
+    ctx.write_gen("Hypersingular.v", "\n".join(out) + "\n")
+    return {k: list(v) for k, v in res.items()}
